@@ -291,7 +291,8 @@ def main():
                "statuses": sorted(set(o["status"] for _, o in items)), "pos": items[0][1].get("pos")}
         confirmed = False
         for u, o in items:
-            vals = model_values(o.get("model") or "", u.get("probes") or []) if o["status"] == "refuted" else {}
+            # refuted: the solver's model; undischarged: a candidate model if one was printed
+            vals = model_values(o.get("model") or "", u.get("probes") or [])
             rec.setdefault("solver_output", (o.get("model") or o.get("output") or "")[:4000])
             rec.setdefault("vc_file", o.get("file"))
             plan = None
